@@ -140,6 +140,11 @@ def run(ctx):
                     ctx.violation("substitution is not idempotent", rp)
         if len(samples) < 4 and c.origin in ("zoo", "placeholder"):
             samples.append({"schema": c.ssrc, "value": c.vsrc(), "outcome": c.outcome})
+    for c in ssuite.bad_results(cases)[:5]:
+        rp = c.replay_dict()
+        rp.update(observed="substitute returned a schema with ill-typed props: " + c.unmodelled[:300],
+                  expected="a schema the DSL can build", theorem_or_suite="substitute correspondence")
+        ctx.violation("substitute returned an ill-formed schema object", rp)
     modelled = [c for c in cases if c.term is not None]
     bad = common.eval_cases(ctx.workdir, "c12", [c.term for c in modelled], "subcase", "subcase_ok",
                             extra_requires="Require Import D42.FromNative D42.Substitute D42.CaseSubst.")
